@@ -1,9 +1,40 @@
 package idxsim
 
 import (
+	"encoding/json"
+	"fmt"
+	"os"
+	"strconv"
 	"testing"
 
 	"verifsim/simcore"
 )
 
 func TestWorker(t *testing.T) { simcore.RunWorker(t, Checks()) }
+
+// TestRunSeed regenerates and executes the plan of one run seed (development aid):
+// IDXSIM_RUNSEED=<run_seed> [VERIF_TIER=quick] idxsim.test -test.run TestRunSeed
+func TestRunSeed(t *testing.T) {
+	s := os.Getenv("IDXSIM_RUNSEED")
+	if s == "" {
+		t.Skip("IDXSIM_RUNSEED not set")
+	}
+	seed, err := strconv.ParseUint(s, 10, 64)
+	if err != nil {
+		t.Fatal(err)
+	}
+	tier := os.Getenv("VERIF_TIER")
+	if tier == "" {
+		tier = "quick"
+	}
+	c := Checks()["C19"]
+	plan := c.Gen(simcore.NewRand(seed), tier)
+	b, _ := json.Marshal(plan)
+	fmt.Printf("PLAN %s\n", b)
+	res := simcore.SafeRun(t, c, plan)
+	if res.Violation != nil {
+		fmt.Printf("VIOLATION %s %s\n%s\n", res.Violation.Oracle, res.Violation.Key, res.Violation.Msg)
+	} else {
+		fmt.Printf("HELD loghash %x\n", res.LogHash)
+	}
+}
